@@ -143,13 +143,19 @@ func (p *Parser) Parse(expression string) (ASTNode, error) {
 }
 
 func (p *Parser) parseExpression(bindingPower int) (ASTNode, error) {
-	var err error
 	leftToken := p.lookaheadToken(0)
 	p.advance()
 	leftNode, err := p.nud(leftToken)
 	if err != nil {
 		return ASTNode{}, err
 	}
+	return p.parseLed(leftNode, bindingPower)
+}
+
+// parseLed continues an expression whose left side has been parsed: it
+// applies every following operator that binds tighter than bindingPower.
+func (p *Parser) parseLed(leftNode ASTNode, bindingPower int) (ASTNode, error) {
+	var err error
 	currentToken := p.current()
 	for bindingPower < bindingPowers[currentToken] {
 		p.advance()
@@ -553,12 +559,20 @@ func (p *Parser) parseDotRHS(bindingPower int) (ASTNode, error) {
 		if err := p.match(tLbracket); err != nil {
 			return ASTNode{}, err
 		}
-		return p.parseMultiSelectList()
+		node, err := p.parseMultiSelectList()
+		if err != nil {
+			return ASTNode{}, err
+		}
+		return p.parseLed(node, bindingPower)
 	} else if lookahead == tLbrace {
 		if err := p.match(tLbrace); err != nil {
 			return ASTNode{}, err
 		}
-		return p.parseMultiSelectHash()
+		node, err := p.parseMultiSelectHash()
+		if err != nil {
+			return ASTNode{}, err
+		}
+		return p.parseLed(node, bindingPower)
 	}
 	return ASTNode{}, p.syntaxError("Expected identifier, lbracket, or lbrace")
 }
